@@ -1,5 +1,3 @@
-//go:build !vsreal
-
 // Package c05: a transport failure at any read or write is contained.
 package c05
 
